@@ -685,6 +685,33 @@ func (c *FnCtx) evalCall(x *ECall, env *Env) (TV, error) {
 			k, s := c.g.heapKeyFor(p.Elem())
 			h := c.heap(env.st, k, s)
 			return TV{sel(h, args[0].t), p.Elem()}, nil
+		case "ctxDone":
+			// ctxDone(ctx): the context has been observed done (monotone ghost set)
+			args, err := evalArgs()
+			if err != nil {
+				return TV{}, err
+			}
+			return TV{sel(c.ctxDoneSet(env.st), args[0].t), types.Typ[types.Bool]}, nil
+		case "seen":
+			// seen(n, k): key k was already produced by the n-th map iteration of the function
+			if len(x.Args) != 2 {
+				return TV{}, fmt.Errorf("seen(n, key)")
+			}
+			lit, ok := x.Args[0].(*EInt)
+			if !ok {
+				return TV{}, fmt.Errorf("seen: first argument must be a literal ordinal")
+			}
+			kv, err := c.evalSpec(x.Args[1], env)
+			if err != nil {
+				return TV{}, err
+			}
+			key := "SEEN_" + lit.Val
+			srt, known := c.g.heapSorts[key]
+			if !known {
+				srt = arraySort(kv.t.Sort, SBool)
+				c.g.heapSorts[key] = srt
+			}
+			return TV{sel(c.heap(env.st, key, srt), kv.t), types.Typ[types.Bool]}, nil
 		case "head":
 			// head(e): e evaluated in the state at the head of the enclosing loop (hints only)
 			if env.head == nil || len(x.Args) != 1 {
